@@ -218,6 +218,45 @@ pub fn miri_case() -> BoxedStrategy<Case> {
     prop_oneof![3 => sorter, 1 => reader].boxed()
 }
 
+/// A clone must own what it hands out: position a cursor, clone it, drop (or move away) the original, and read the
+/// clone's current entry. A borrowed slice into the original's freed block shows as poisoned bytes (checking
+/// allocator), as a sanitizer report (ASan) or as UB (Miri).
+pub fn clone_outlives_original(bytes: &[u8], entries: &crate::common::Entries, steps: usize) -> Check {
+    if entries.is_empty() {
+        return Ok(());
+    }
+    for drop_original in [true, false] {
+        let mut a = rd::cursor(bytes)?;
+        rd::apply(&mut a, &COp::First)?;
+        for _ in 0..steps.min(entries.len() - 1) {
+            rd::apply(&mut a, &COp::Next)?;
+        }
+        let want = rd::own(a.current());
+        let b = a.clone();
+        if drop_original {
+            drop(a);
+        } else {
+            rd::apply(&mut a, &COp::Last)?;
+            rd::apply(&mut a, &COp::First)?;
+            a.reset();
+        }
+        // allocate and free something of similar size so that freed memory is likely to be reused
+        let churn: Vec<Vec<u8>> = (0..4).map(|i| vec![0x5a ^ i as u8; 1024 + i * 512]).collect();
+        drop(churn);
+        let got = rd::own(b.current());
+        if got != want {
+            fail!(
+                "c17:clone-dangling",
+                "a cloned cursor's current() changed after its original was {}: got {} want {}",
+                if drop_original { "dropped" } else { "moved away" },
+                rd::show(&got),
+                rd::show(&want)
+            );
+        }
+    }
+    Ok(())
+}
+
 /// `n` cases for the Miri stage, generated natively and deterministically from the seed.
 pub fn miri_cases(seed: u64, n: u32) -> Vec<Case> {
     use proptest::strategy::ValueTree;
@@ -345,6 +384,7 @@ pub fn run_plain(case: &Case) -> Check {
                 rd::apply(&mut c, &COp::Ge(q))?;
             }
             crate::props::c03::run_history(&bytes, &entries, ops, None)?;
+            clone_outlives_original(&bytes, &entries, ops.len() % 7)?;
             Ok(())
         }
     }
@@ -482,6 +522,7 @@ impl Prop for C17 {
                         let _ = rd::guard("next", || it.next().map(rd::own))?;
                     }
                     crate::props::c03::run_history(&bytes, &entries, ops, None)?;
+                    clone_outlives_original(&bytes, &entries, ops.len() % 7)?;
                     Ok(())
                 })?;
                 if live[1] > live[0] && live[2] > live[1] {
